@@ -8,7 +8,7 @@
    "every type in play has okT/okL names" is threaded through the checker here. *)
 Require Import Grits.Base Grits.ModeDefs Grits.Modes Grits.STypes Grits.Forms Grits.Subst Grits.Infer
                Grits.TcDeps Grits.Expand Grits.Tc Grits.TcTop
-               Grits.spec.Rename Grits.proofs.TcInv Grits.proofs.TcTotal Grits.proofs.RenameTypes Grits.proofs.RenameSubst.
+               Grits.spec.Rename Grits.proofs.TcInv Grits.proofs.TcTotal Grits.proofs.PermTc Grits.proofs.RenameTypes Grits.proofs.RenameSubst.
 
 Definition tmap {A B} (h : A -> B) (x : tcr A) : tcr B :=
   match x with TOk a => TOk (h a) | TErr w => TErr w | TPanic w => TPanic w | THang w => THang w end.
@@ -28,17 +28,19 @@ Definition rn_fsig (r : renaming) (s : fsig) : fsig :=
 Definition rn_sigma (r : renaming) (Sg : sigma) : sigma := map (rn_fsig r) Sg.
 Global Arguments rn_sigma : simpl never.
 
-Definition okot (okT okL : string -> Prop) (t : option sty) : Prop := match t with Some t => okt okT okL t | None => True end.
-(* the only annotation of a form the checker reads is that of the new name of a cut *)
-Fixpoint okform (okT okL : string -> Prop) (f : form) : Prop :=
+Definition okot (okT okL : string -> Prop) (okM : mode -> Prop) (NE : Prop) (t : option sty) : Prop :=
+  match t with Some t => okt okT okL okM NE t | None => True end.
+(* the only annotation of a form the checker reads is that of the new name of a cut; it is a RAW type
+   (modes not yet inferred): anym *)
+Fixpoint okform (okT okL : string -> Prop) (NE : Prop) (f : form) : Prop :=
   match f with
-  | FRecv _ _ _ k | FWait _ k | FSplit _ _ _ k | FShift _ _ k | FDrop _ k | FPrint _ k => okform okT okL k
-  | FCase _ bs => okbranches okT okL bs
-  | FNew x b k => okot okT okL (nty x) /\ okform okT okL b /\ okform okT okL k
+  | FRecv _ _ _ k | FWait _ k | FSplit _ _ _ k | FShift _ _ k | FDrop _ k | FPrint _ k => okform okT okL NE k
+  | FCase _ bs => okbranches okT okL NE bs
+  | FNew x b k => okot okT okL anym NE (nty x) /\ okform okT okL NE b /\ okform okT okL NE k
   | _ => True
   end
-with okbranches (okT okL : string -> Prop) (b : branches) : Prop :=
-  match b with BrNil => True | BrCons _ _ k rest => okform okT okL k /\ okbranches okT okL rest end.
+with okbranches (okT okL : string -> Prop) (NE : Prop) (b : branches) : Prop :=
+  match b with BrNil => True | BrCons _ _ k rest => okform okT okL NE k /\ okbranches okT okL NE rest end.
 
 Section Tc.
 Variable r : renaming.
@@ -48,7 +50,8 @@ Hypothesis Hf : injective (rf r).
 Hypothesis Ht : injective (rt r).
 Hypothesis Hl : injective (rl r).
 Variable okT okL : string -> Prop.
-Hypothesis Hkey : forall s t s' t', okt okT okL s -> okt okT okL t -> okt okT okL s' -> okt okT okL t' ->
+Variable NE : Prop.
+Hypothesis Hkey : forall s t s' t', okt okT okL pm NE s -> okt okT okL pm NE t -> okt okT okL pm NE s' -> okt okT okL pm NE t' ->
   (eq_key (rn_sty r s) (rn_sty r t) = eq_key (rn_sty r s') (rn_sty r t') <-> eq_key s t = eq_key s' t').
 
 Notation rs := (rn_sty r).
@@ -60,12 +63,15 @@ Notation rF := (rn_form r).
 Notation rB := (rn_branches r).
 Notation rC := (kvmap (rc r) (rn_osty r)).
 Notation rSg := (rn_sigma r).
-Notation okt := (okt okT okL).
-Notation okbrs := (okbrs okT okL).
-Notation okot := (okot okT okL).
-Notation okform := (okform okT okL).
-Notation okbranches := (okbranches okT okL).
-Notation okD := (okD okT okL).
+Notation okt := (okt okT okL pm NE).
+Notation okr := (RenameTypes.okt okT okL anym NE).
+Notation okbrs := (okbrs okT okL pm NE).
+Notation okot := (okot okT okL pm NE).
+Notation okotr := (RenameTc.okot okT okL anym NE).
+Notation okform := (okform okT okL NE).
+Notation okbranches := (okbranches okT okL NE).
+Notation okD := (okD okT okL pm NE).
+Notation okDr := (RenameTypes.okD okT okL anym NE).
 
 Definition okctx (g : ctx) : Prop := Forall (fun kv => okot (snd kv)) g.
 Definition oknames (ns : list name) : Prop := Forall (fun n => okot (nty n)) ns.
@@ -113,7 +119,7 @@ Lemma equal_opt_sim D a' b' a b : a' = rO a -> b' = rO b -> okD D -> okot a -> o
 Proof.
   intros -> -> HD Ha Hb. rewrite tmap_id.
   destruct a as [a|], b as [b|]; cbn [rn_osty option_map equal_opt].
-  - rewrite (equal_type_rn r Ht Hl okT okL Hkey D a b HD Ha Hb). destruct a; reflexivity.
+  - rewrite (equal_type_rn r Ht Hl okT okL pm NE Hkey D a b HD Ha Hb). destruct a; reflexivity.
   - destruct a; reflexivity.
   - destruct b; reflexivity.
   - reflexivity.
@@ -287,17 +293,17 @@ Ltac inv_as H := first
 
 (* ---------- forward facts ---------- *)
 Lemma okt_as_tensor t a b m : okot t -> as_tensor t = Some (a, b, m) -> okt a /\ okt b.
-Proof. intros H E. apply as_tensor_inv in E. subst t. exact H. Qed.
+Proof. intros H E. apply as_tensor_inv in E. subst t. exact (proj2 H). Qed.
 Lemma okt_as_lolli t a b m : okot t -> as_lolli t = Some (a, b, m) -> okt a /\ okt b.
-Proof. intros H E. apply as_lolli_inv in E. subst t. exact H. Qed.
+Proof. intros H E. apply as_lolli_inv in E. subst t. exact (proj2 H). Qed.
 Lemma okt_as_plus t bs m : okot t -> as_plus t = Some (bs, m) -> okbrs bs.
-Proof. intros H E. apply as_plus_inv in E. subst t. exact H. Qed.
+Proof. intros H E. apply as_plus_inv in E. subst t. exact (proj2 (proj2 H)). Qed.
 Lemma okt_as_with t bs m : okot t -> as_with t = Some (bs, m) -> okbrs bs.
-Proof. intros H E. apply as_with_inv in E. subst t. exact H. Qed.
+Proof. intros H E. apply as_with_inv in E. subst t. exact (proj2 (proj2 H)). Qed.
 Lemma okt_as_up t f to a : okot t -> as_up t = Some (f, to, a) -> okt a.
-Proof. intros H E. apply as_up_inv in E. subst t. exact H. Qed.
+Proof. intros H E. apply as_up_inv in E. subst t. exact (proj2 (proj2 H)). Qed.
 Lemma okt_as_down t f to a : okot t -> as_down t = Some (f, to, a) -> okt a.
-Proof. intros H E. apply as_down_inv in E. subst t. exact H. Qed.
+Proof. intros H E. apply as_down_inv in E. subst t. exact (proj2 (proj2 H)). Qed.
 
 Lemma ok_consume n g t g1 : okctx g -> consume n g = TOk (t, g1) -> okot t /\ okctx g1.
 Proof.
@@ -330,8 +336,12 @@ Proof.
 Qed.
 Lemma ok_need t w a : okot t -> need t w = TOk a -> okt a.
 Proof. intros H E. apply need_ok in E. subst t. exact H. Qed.
-Lemma ok_add_missing D t a : okt t -> lift (add_missing D t) = TOk a -> okt a.
-Proof. intros H E. apply lift_ok in E. eapply okt_add_missing; eauto. Qed.
+Lemma ok_add_missing D t a : okr t -> lift (add_missing D t) = TOk a -> okr a.
+Proof. intros H E. apply lift_ok in E. eapply okr_add_missing; eauto. Qed.
+Lemma ok_guard_wf D a w u : okr a -> guard (check_wf D a) w = TOk u -> okt a.
+Proof. intros H E. apply guard_ok in E. eapply okr_check_wf; eauto. Qed.
+Lemma okctx_aset_aset k t w g : okot t -> okctx g -> okctx (aset k t (aset k w g)).
+Proof. intros H1 H2. rewrite aset_aset. apply okctx_aset; assumption. Qed.
 
 (* ---------------------------------------------------------------- the forms *)
 Section Forms.
@@ -358,6 +368,7 @@ Ltac ok :=
   first
   [ assumption | exact I
   | match goal with
+    | |- okctx (aset ?k _ (aset ?k _ _)) => apply okctx_aset_aset; ok
     | |- okctx (aset _ _ _) => apply okctx_aset; ok
     | |- okctx (aremove _ _) => apply okctx_aremove; ok
     | |- okctx [] => apply okctx_nil
@@ -382,7 +393,11 @@ Ltac learn E :=
   | need ?t ?w = TOk ?a =>
     let H := fresh "Hok" in assert (H : okt a) by (apply (ok_need t w a); [ok | exact E])
   | lift (add_missing D ?t) = TOk ?a =>
-    let H := fresh "Hok" in assert (H : okt a) by (apply (ok_add_missing D t a); [ok | exact E])
+    let H := fresh "Hok" in assert (H : okr a) by (apply (ok_add_missing D t a); [ok | exact E])
+  | guard (check_wf D ?a) ?w = TOk ?u =>
+    match goal with
+    | Hr : okr a |- _ => let H := fresh "Hok" in assert (H : okt a) by (exact (ok_guard_wf D a w u Hr E))
+    end
   | split_gamma D ?g ?ns [] = TOk (?gl, ?gr) =>
     let H := fresh "Hok" in assert (H : okctx gl /\ okctx gr) by (apply (okctx_split D HD ns g [] gl gr); [ok | apply okctx_nil | exact E]); destruct H
   | as_tensor ?t = Some (?a, ?b, ?m) =>
@@ -398,7 +413,7 @@ Ltac learn E :=
   | as_down ?t = Some (?f, ?to, ?a) =>
     let H := fresh "Hok" in assert (H : okt a) by (apply (okt_as_down t f to a); [ok | exact E])
   | find_br ?l ?bs = Some ?a =>
-    let H := fresh "Hok" in assert (H : okt a) by (apply (okt_find_br okT okL l bs a); [ok | exact E])
+    let H := fresh "Hok" in assert (H : okt a) by (apply (okt_find_br okT okL pm NE l bs a); [ok | exact E])
   end.
 
 Ltac polrels := repeat (first [apply Forall2_nil | apply Forall2_cons]); split; reflexivity.
@@ -623,10 +638,33 @@ Qed.
 End Forms.
 
 (* ---------------------------------------------------------------- the top level (TcTop.v) *)
+(* two levels: what the parser hands over (raw: modes not yet inferred) and what the preliminary checks
+   let through (every mode proper: CheckTypeWellFormedness) *)
+Definition oknamesr (ns : list name) : Prop := Forall (fun n => okotr (nty n)) ns.
+Definition okfunr (f : fundef) : Prop := okotr (fn_type f) /\ oknamesr (fn_params f) /\ okform (fn_body f).
+Definition okprocr (p : procdef) : Prop := okotr (pr_type p) /\ okform (pr_body p).
+Definition okprog (p : program) : Prop :=
+  okDr (p_types p) /\ Forall okfunr (p_funs p) /\ Forall okprocr (p_procs p) /\ oknamesr (p_assumed p).
 Definition okfun (f : fundef) : Prop := okot (fn_type f) /\ oknames (fn_params f) /\ okform (fn_body f).
 Definition okproc (p : procdef) : Prop := okot (pr_type p) /\ okform (pr_body p).
-Definition okprog (p : program) : Prop :=
-  okD (p_types p) /\ Forall okfun (p_funs p) /\ Forall okproc (p_procs p) /\ oknames (p_assumed p).
+
+Lemma okot_raise D t : okotr t -> sanity_types D (match t with Some t => [t] | None => [] end) = true -> okot t.
+Proof.
+  destruct t as [t|]; cbn [RenameTc.okot sanity_types forallb]; [|auto]. intros H E. rewrite andb_true_r in E.
+  eapply okr_check_wf; eauto.
+Qed.
+Lemma oknames_raise D ns : oknamesr ns -> sanity_types D (types_of ns) = true -> oknames ns.
+Proof.
+  unfold sanity_types, types_of. induction 1 as [|n ns Hn _ IH]; cbn [flat_map]; intros E; [constructor|].
+  rewrite forallb_app in E. apply andb_prop in E. destruct E as [E1 E2]. constructor; [|apply IH, E2].
+  destruct (nty n) as [t|]; cbn [RenameTc.okot forallb] in *; [|exact I]. rewrite andb_true_r in E1.
+  eapply okr_check_wf; eauto.
+Qed.
+Lemma okD_raise D : okDr D -> sanity_typedefs D = Ok true -> okD D.
+Proof.
+  intros H E d Hd. apply PermTc.sanity_ok_iff in E. destruct E as [_ E]. rewrite Forall_forall in E.
+  destruct (E d Hd) as (Hw & _). eapply okr_check_wf; [apply H, Hd | exact Hw].
+Qed.
 
 Lemma map_ident_rn l : map ident (map rN l) = map (rc r) (map ident l).
 Proof. rewrite !map_map. reflexivity. Qed.
@@ -638,7 +676,7 @@ Proof.
   destruct t as [t|]; cbn [rn_osty option_map add_missing_opt]; [|reflexivity].
   rewrite (add_missing_rn r Ht), lift_omap. destruct (lift (add_missing D t)); reflexivity.
 Qed.
-Lemma ok_add_missing_opt D t t' : okot t -> add_missing_opt D t = TOk t' -> okot t'.
+Lemma ok_add_missing_opt D t t' : okotr t -> add_missing_opt D t = TOk t' -> okotr t'.
 Proof.
   destruct t as [t|]; cbn [add_missing_opt]; intros H E; [|inversion E; exact I].
   apply tbind_ok in E. destruct E as (a & E & E'). inversion E'; subst. eapply ok_add_missing; eauto.
@@ -650,7 +688,7 @@ Proof.
   eapply sim_bind; [apply add_missing_opt_sim | intros t _].
   eapply sim_bind; [apply IH | intros ns' _]. reflexivity.
 Qed.
-Lemma ok_add_missing_names D ns ns' : oknames ns -> add_missing_names D ns = TOk ns' -> oknames ns'.
+Lemma ok_add_missing_names D ns ns' : oknamesr ns -> add_missing_names D ns = TOk ns' -> oknamesr ns'.
 Proof.
   revert ns'. induction ns as [|n ns IH]; cbn [add_missing_names]; intros ns' H E; [inversion E; constructor|].
   inversion H as [|? ? H1 H2]; subst.
@@ -698,15 +736,20 @@ Proof.
   eapply sim_bind; [apply (IH (fn_name f :: seen)) | intros r' _]. reflexivity.
 Qed.
 
-Lemma ok_prelim_funs D : forall fs seen fs', Forall okfun fs -> prelim_funs D fs seen = TOk fs' -> Forall okfun fs'.
+Lemma ok_prelim_funs D : forall fs seen fs', Forall okfunr fs -> prelim_funs D fs seen = TOk fs' -> Forall okfun fs'.
 Proof.
   induction fs as [|f fs IH]; cbn [prelim_funs]; intros seen fs' H E; [inversion E; constructor|].
   inversion H as [|? ? (H1 & H2 & H3) H4]; subst.
-  repeat (apply tbind_ok in E; destruct E as (? & ? & E)). inversion E; subst.
+  apply tbind_ok in E; destruct E as (? & _ & E). apply tbind_ok in E; destruct E as (? & _ & E).
+  apply tbind_ok in E; destruct E as (? & _ & E). apply tbind_ok in E; destruct E as (? & _ & E).
+  apply tbind_ok in E; destruct E as (ft & Eft & E). apply tbind_ok in E; destruct E as (ps & Eps & E).
+  apply tbind_ok in E; destruct E as (? & Eg & E). apply tbind_ok in E; destruct E as (? & _ & E).
+  apply tbind_ok in E; destruct E as (r' & Er & E). inversion E; subst.
   constructor; [|eapply IH; eauto].
+  apply guard_ok in Eg. unfold sanity_types in Eg. rewrite forallb_app in Eg. apply andb_prop in Eg. destruct Eg as [Eg1 Eg2].
   repeat split; cbn [fn_type fn_params fn_body]; auto.
-  - eapply ok_add_missing_opt; eauto.
-  - eapply ok_add_missing_names; eauto.
+  - eapply okot_raise; [eapply ok_add_missing_opt; eauto | exact Eg1].
+  - eapply oknames_raise; [eapply ok_add_missing_names; eauto | exact Eg2].
 Qed.
 
 (* ---------- processes ---------- *)
@@ -747,13 +790,16 @@ Proof.
   eapply sim_bind; [apply use_free_names_sim | intros [a' p'] _]. cbn [rn_uu fst snd].
   eapply sim_bind; [apply IH | intros [r' a''] _]. reflexivity.
 Qed.
-Lemma ok_prelim_procs_types D : forall ps a p ps' a', Forall okproc ps ->
+Lemma ok_prelim_procs_types D : forall ps a p ps' a', Forall okprocr ps ->
   prelim_procs_types D ps a p = TOk (ps', a') -> Forall okproc ps'.
 Proof.
   induction ps as [|q ps IH]; cbn [prelim_procs_types]; intros a p ps' a' H E; [inversion E; constructor|].
   inversion H as [|? ? (H1 & H2) H4]; subst.
+  apply tbind_ok in E; destruct E as (? & _ & E). apply tbind_ok in E; destruct E as (pt & Ept & E).
+  apply tbind_ok in E; destruct E as (? & Eg & E). apply guard_ok in Eg.
   tinv E. inversion E; subst.
-  constructor; [|eapply IH; eauto]. split; cbn [pr_type pr_body]; auto. eapply ok_add_missing_opt; eauto.
+  constructor; [|eapply IH; eauto]. split; cbn [pr_type pr_body]; auto.
+  eapply okot_raise; [eapply ok_add_missing_opt; eauto | exact Eg].
 Qed.
 
 Lemma providers_unique_rn : forall ps seen,
@@ -821,13 +867,15 @@ Proof.
   eapply sim_bind; [apply guard_sim; apply procs_acyclic_rn | intros [] _].
   reflexivity.
 Qed.
-Lemma ok_prelim_procs D ps assumed ps' assumed' : Forall okproc ps -> oknames assumed ->
+Lemma ok_prelim_procs D ps assumed ps' assumed' : Forall okprocr ps -> oknamesr assumed ->
   prelim_procs D ps assumed = TOk (ps', assumed') -> Forall okproc ps' /\ oknames assumed'.
 Proof.
   unfold prelim_procs. intros Hps Ha E.
+  apply tbind_ok in E; destruct E as (? & _ & E). apply tbind_ok in E; destruct E as (? & _ & E).
+  apply tbind_ok in E; destruct E as (as' & Eas & E). apply tbind_ok in E; destruct E as (? & Eg & E). apply guard_ok in Eg.
   tinv E. inversion E; subst. split.
   - eapply ok_prelim_procs_types; eauto.
-  - eapply ok_add_missing_names; eauto.
+  - eapply oknames_raise; [eapply ok_add_missing_names; eauto | exact Eg].
 Qed.
 
 (* ---------- sigma, contexts, drivers ---------- *)
@@ -949,10 +997,11 @@ Qed.
 
 Theorem tc_program_rn p : okprog p -> tc_program (rn_program r p) = tmap (rn_program r) (tc_program p).
 Proof.
-  intros (HD & Hfs & Hps & Ha). unfold tc_program. cbn [rn_program p_types p_funs p_procs p_assumed].
+  intros (HDr & Hfs & Hps & Ha). unfold tc_program. cbn [rn_program p_types p_funs p_procs p_assumed].
   rewrite (sanity_typedefs_rn r Ht Hl).
-  eapply (sim_bind (fun b : bool => b)); [symmetry; apply tmap_id | intros okd _].
-  eapply sim_bind; [apply guard_sim; reflexivity | intros [] _].
+  eapply (sim_bind (fun b : bool => b)); [symmetry; apply tmap_id | intros okd Es].
+  eapply sim_bind; [apply guard_sim; reflexivity | intros [] Eg].
+  apply guard_ok in Eg. subst okd. apply lift_ok in Es. pose proof (okD_raise _ HDr Es) as HD.
   change (@nil string) with (map (rf r) []).
   eapply sim_bind; [apply prelim_funs_sim | intros fs E1].
   pose proof (ok_prelim_funs _ _ _ _ Hfs E1) as Hfs'.
